@@ -1,9 +1,9 @@
 /-
-  C06/ParseNumber — model of otto's string→number conversion `parseNumber` (value_number.go:14).
+  Base/ParseNumber — model of otto's string→number conversion `parseNumber` (value_number.go:14).
   Shared with C05 (ToNumber on strings).
 -/
 import OttoVerif.Base.GoStd
-namespace OttoVerif.C06
+namespace OttoVerif.PN
 open OttoVerif.F64 OttoVerif.GoStd
 
 /-- builtinStringTrimWhitespace (builtin_string.go:472), as runes -/
@@ -28,4 +28,4 @@ def parseNumber (s : List Nat) : FV :=
     | _ => .nan
   else pfOrNaN v
 
-end OttoVerif.C06
+end OttoVerif.PN
